@@ -467,6 +467,8 @@ func runC15(c *core.Ctx) {
 			c.Sample(map[string]any{"food.yaml": clip(w.BookText, 400), "log.yaml": clip(w.LogText, 400), "checks": "colour x6, flag position, interleaving x2, shorten, desc x2"})
 		}
 	})
+	// a report while another report - other files, other options - is alive in the same process
+	nestedReports(c, pool, c.N(120, 1500), nestedRegShape)
 	jobs, deaths := pool.Stats()
 	c.Count("l2_jobs", jobs)
 	c.Count("l2_process_deaths", deaths)
